@@ -443,7 +443,9 @@ class Ctx:
     def proof_gate(self, props_file=None, need_gen=True):
         """Build the property's cone, check textual gate and assumptions.  Registers broken obligations."""
         pf = props_file or ("props/%s.v" % self.prop)
-        if need_gen and os.path.exists(os.path.join(VERIF, "tools", "py2v.py")):
+        gen_missing = not os.path.exists(os.path.join(COQ, "gen", "Distributions.v"))
+        uses_gen = gen_missing or any(c.startswith("gen/") for c in deps_cone(pf))
+        if need_gen and uses_gen and os.path.exists(os.path.join(VERIF, "tools", "py2v.py")):
             ok, log, fails = regen()
             self.notes["translator_log_tail"] = log[-1500:]
             self._regen = (ok, fails, log)
@@ -468,6 +470,21 @@ class Ctx:
                 self.broken.append(("forbidden-construct", "%s: %s" % (f, m.group(0)), ""))
         targets = [f[:-2] + ".vo" for f in cone]
         ok, out = build(targets)
+        failed = set(re.findall(r"\*\*\* \[[^\]]*?:\s*([^\]\s]+\.vo)\] Error", out))
+        failed = {f[:-3] + ".v" for f in failed}
+        # whatever depends on a file that failed to build was not remade: it is not discharged either
+        changed = True
+        while changed:
+            changed = False
+            for f in cone:
+                if f not in failed and any(d in failed for d in deps_cone(f)[1:]):
+                    failed.add(f)
+                    changed = True
+        for f in failed:
+            try:
+                os.remove(os.path.join(COQ, f[:-2] + ".vo"))   # never leave a stale .vo behind
+            except OSError:
+                pass
         nobl = 0
         ndis = 0
         per_file = {}
@@ -480,7 +497,7 @@ class Ctx:
             per_file[f] = k
             nobl += k
             vo = os.path.join(COQ, f[:-2] + ".vo")
-            if os.path.exists(vo) and os.path.getmtime(vo) >= os.path.getmtime(os.path.join(COQ, f)):
+            if f not in failed and os.path.exists(vo) and os.path.getmtime(vo) >= os.path.getmtime(os.path.join(COQ, f)):
                 ndis += k
             else:
                 self.broken.append(("proof", f, _tail_for(out, f)))
